@@ -176,7 +176,7 @@ def make_im(spec, version):
                 by_path.setdefault(i["path"] if isinstance(i, dict) else i[0], set()).add(json.dumps(i, sort_keys=True))
             if any(len(x) > 1 for x in by_path.values()):
                 return None
-    return json.dumps(old), exp
+    return json.dumps(old, sort_keys=True), exp          # ('src' tables stand between the binary arches' tables)
 
 
 HACK_NAMES = ("Red Hat Enterprise Linux", "Subscription Asset Manager", "Red Hat Storage", "JBEAP", "Fedora", "CentOS", "EulerOS")
